@@ -24,7 +24,8 @@ Robustness:
     raises and make it part of its result);
   * the template exits when its stdin reaches EOF, and asks the kernel to be signalled if the client dies first
     (PR_SET_PDEATHSIG), the grandchildren likewise; the client closes the template at interpreter exit (`atexit`);
-  * a template found dead *between* requests is restarted once, a death *during* a request is an error.
+  * a template found dead between requests is restarted; a batch lost to the machine (template gone, fork killed or
+    late) is run once more on a new template - the jobs are pure - and only a second failure is an error.
 """
 
 from __future__ import annotations
@@ -48,6 +49,10 @@ HERE = os.path.dirname(os.path.dirname(os.path.abspath(__file__)))
 
 class ForkIsoError(RuntimeError):
     """the isolation machinery failed (never: the code under test misbehaved)"""
+
+
+class _Transient(ForkIsoError):
+    """a failure that may be the machine's (lost template, killed or late fork): the batch is retried once"""
 
 
 # ---------------------------------------------------------------------------- framing
@@ -119,7 +124,17 @@ def _die_with_parent(sig: int) -> None:
 def _spawn(worker: Any, job: Any, close_in_child: list[int]) -> tuple[int, int]:
     """fork one grandchild for one job -> (read end of its answer pipe, pid)"""
     r, w = os.pipe()
-    pid = os.fork()
+    pid = -1
+    for attempt in range(6):
+        try:
+            pid = os.fork()
+            break
+        except OSError:  # EAGAIN / ENOMEM on a saturated machine: wait for the system (and our own reaper) to catch up
+            if attempt == 5:
+                os.close(r)
+                os.close(w)
+                raise
+            time.sleep(0.05 * 2**attempt)
     if pid != 0:
         os.close(w)
         return r, pid
@@ -269,7 +284,11 @@ def _serve(worker_name: str) -> int:
                 continue
             timeout = float(request.get('job_timeout', 20.0))
             parallel = max(1, int(request.get('parallel', 1)))
-            answers = _run_batch(worker, request['jobs'], timeout, parallel, (rx, tx), reaper)
+            try:
+                answers = _run_batch(worker, request['jobs'], timeout, parallel, (rx, tx), reaper)
+            except Exception:  # noqa: BLE001 - the machinery itself failed: say so, the client raises
+                _write_frame(tx, {'failure': traceback.format_exc()[-6000:]})
+                continue
             forks += len(answers)
             _write_frame(tx, {'answers': answers})
     finally:
@@ -282,7 +301,7 @@ def _serve(worker_name: str) -> int:
 class ForkServer:
     """client handle on one template process; `run(jobs)` -> list of results, in order"""
 
-    def __init__(self, worker: str, job_timeout: float = 20.0, start_timeout: float = 120.0, parallel: int | None = None) -> None:
+    def __init__(self, worker: str, job_timeout: float = 60.0, start_timeout: float = 120.0, parallel: int | None = None) -> None:
         self.worker = worker
         self.parallel = parallel if parallel is not None else int(os.environ.get('VERIF_FORKISO_PARALLEL', '4') or '4')
         self.job_timeout = job_timeout
@@ -292,6 +311,7 @@ class ForkServer:
         self.jobs_run = 0
         self.seconds = 0.0
         self.starts = 0
+        self.retries = 0
         self._owner = os.getpid()
         atexit.register(self.close)
 
@@ -363,25 +383,47 @@ class ForkServer:
         except (EOFError, BrokenPipeError, TimeoutError, OSError) as exc:
             rc = self.proc.poll() if self.proc else None
             self._drop()
-            raise ForkIsoError(f'template for {self.worker} lost during a request ({type(exc).__name__}, exit status {rc})') from None
+            raise _Transient(f'template for {self.worker} lost during a request ({type(exc).__name__}, exit status {rc})') from None
+
+    def _attempt(self, jobs: list) -> list:
+        reply = self._roundtrip({'jobs': jobs, 'job_timeout': self.job_timeout, 'parallel': self.parallel}, self.job_timeout * len(jobs) + 30.0)
+        if 'failure' in reply:
+            self._drop()
+            raise ForkIsoError(f'template for {self.worker} failed while forking:\n{reply["failure"]}')
+        out = []
+        for job, (status, value) in zip(jobs, reply['answers']):
+            if status == 'error':  # an exception escaped worker.run: deterministic, retrying is pointless
+                raise ForkIsoError(f'worker raised for job {repr(job)[:300]}:\n{value}')
+            if status != 'ok':
+                self._drop()
+                raise _Transient(f'fork for job {repr(job)[:300]}: {status}: {value}')
+            out.append(value)
+        return out
 
     def run(self, jobs: list) -> list:
+        """results of the jobs, in order.  The jobs are pure (each runs in its own fork of the template), so a batch that
+        was lost to the machine (template gone, a fork killed or out of time) is run once more on a new template"""
         if not jobs:
             return []
         started = time.monotonic()
-        reply = self._roundtrip({'jobs': jobs, 'job_timeout': self.job_timeout, 'parallel': self.parallel}, self.job_timeout * len(jobs) + 30.0)
-        self.seconds += time.monotonic() - started
+        try:
+            try:
+                out = self._attempt(jobs)
+            except _Transient as exc:
+                self.retries += 1
+                sys.stderr.write(f'forkiso: retrying a batch of {len(jobs)} jobs on a new template after: {exc}\n')
+                try:
+                    out = self._attempt(jobs)
+                except _Transient as again:
+                    raise ForkIsoError(f'twice in a row: {again}') from None
+        finally:
+            self.seconds += time.monotonic() - started
         self.jobs_run += len(jobs)
-        out = []
-        for job, (status, value) in zip(jobs, reply['answers']):
-            if status != 'ok':
-                raise ForkIsoError(f'fork for job {repr(job)[:300]}: {status}: {value}')
-            out.append(value)
         return out
 
     def stats(self) -> dict:
         reply = self._roundtrip({'op': 'stats'}, 30.0)
-        reply.update(jobs=self.jobs_run, seconds=round(self.seconds, 3), starts=self.starts)
+        reply.update(jobs=self.jobs_run, seconds=round(self.seconds, 3), starts=self.starts, retries=self.retries)
         return reply
 
 
